@@ -375,6 +375,9 @@ class NormTypeAlias(BaseNormType):
 
     @property
     def source(self) -> TypeHint:
+        if self._args:
+            # the bare alias is another type (``Batch[int]`` and ``Batch[str]`` are not ``Batch``)
+            return self._type_alias[tuple(arg.source for arg in self._args)]
         return self._type_alias
 
     @property
